@@ -279,4 +279,205 @@ theorem writeOffsetsAndValues_wr1 (m : Mem) (vs : List (List Nat)) (o b : Nat) (
         rw [heq] at hl
         exact wr1_of m _ _ ws.reverse rfl (key ws hl).1 (key ws hl).2
 
+/-! ### fd_read / fd_pread with the repaired `readv` (iovec array copied at the start, F62) -/
+
+/-- entry `i` of the iovec array is among the regions named by the entries `j … j+cnt-1` -/
+theorem iovRegions_mem (m : Mem) (iovs : Nat) : ∀ (cnt j i : Nat), j ≤ i → i < j + cnt → iovs + 8 * i + 8 ≤ m.size →
+    (le32 m (iovs + 8 * i), le32 m (iovs + 8 * i + 4)) ∈ iovRegions m iovs cnt j := by
+  intro cnt
+  induction cnt with
+  | zero => intro j i h1 h2 _; omega
+  | succ cnt ih =>
+    intro j i h1 h2 h3
+    unfold iovRegions
+    have hc : iovs + 8 * j + 8 ≤ m.size := by omega
+    simp only [hc, if_true, List.mem_cons]
+    by_cases hij : i = j
+    · left; rw [hij]
+    · right; exact ih (j + 1) i (by omega) (by omega) h3
+
+/-- what the loop keeps true of every write it has logged -/
+def RdOk (m : Mem) (d : List (Nat × Nat)) (w : Wr) : Prop :=
+  (w.len = 0 ∨ w.off + w.len ≤ m.size) ∧ Wr.within w d
+
+theorem write_size' (m : Mem) (a : Nat) (bs : List Nat) : (m.write a bs).size = m.size := rfl
+
+theorem readvLoop_snap_writes (en : Bool) (m : Mem) (hb : Bytes m) (iovs cnt stop : Nat) (rest : List (Nat × Nat))
+    (hs : m.size < 9223372036854775808) (h8 : stop % 8 = 0) (hst : stop ≤ cnt * 8) (h32 : stop < 4294967296)
+    (hin : iovs + stop ≤ m.size) :
+    ∀ (fuel pos : Nat) (s : RvSt), pos % 8 = 0 → s.m.size = m.size →
+      (∀ w ∈ s.ws, RdOk m (iovRegions m iovs cnt 0 ++ rest) w) →
+      (∀ w ∈ (readvLoop en (some m) iovs stop fuel pos s).1.ws, RdOk m (iovRegions m iovs cnt 0 ++ rest) w) ∧
+      (readvLoop en (some m) iovs stop fuel pos s).1.m.size = m.size := by
+  intro fuel
+  induction fuel with
+  | zero => intro pos s _ hsz hws; exact ⟨hws, hsz⟩
+  | succ fuel ih =>
+    intro pos s hp hsz hws
+    unfold readvLoop
+    by_cases hge : pos ≥ stop
+    · rw [if_pos hge]; exact ⟨hws, hsz⟩
+    · rw [if_neg hge]
+      have h4 : ¬ (pos + 4 > stop) := by omega
+      have hp4 : w32 (pos + 4) = pos + 4 := by unfold w32; omega
+      have h5 : ¬ (pos + 4 > stop ∨ pos + 4 + 4 > stop) := by omega
+      have hn : w32 (pos + 8) % 8 = 0 := by unfold w32; omega
+      rw [if_neg h4]
+      simp only [Option.getD_some, hp4, h5, if_false]
+      by_cases hl0 : le32 m (iovs + (pos + 4)) = 0
+      · rw [if_pos hl0]; exact ih _ _ hn hsz hws
+      · rw [if_neg hl0]
+        by_cases hhas : (!s.m.has (le32 m (iovs + pos)) (le32 m (iovs + (pos + 4)))) = true
+        · rw [if_pos hhas]; exact ⟨hws, hsz⟩
+        · rw [if_neg hhas]
+          have hoff : le32 m (iovs + pos) < 4294967296 := le32_lt m hb _
+          have hlen : le32 m (iovs + (pos + 4)) < 4294967296 := le32_lt m hb _
+          have hfit : le32 m (iovs + pos) + le32 m (iovs + (pos + 4)) ≤ m.size := by
+            have := has_le s.m _ _ hoff hlen (by omega) (by simpa using hhas)
+            omega
+          have hentry : (le32 m (iovs + pos), le32 m (iovs + (pos + 4))) ∈ iovRegions m iovs cnt 0 := by
+            have := iovRegions_mem m iovs cnt 0 (pos / 8) (by omega) (by omega) (by omega)
+            have e1 : iovs + 8 * (pos / 8) = iovs + pos := by omega
+            have e2 : iovs + pos + 4 = iovs + (pos + 4) := by omega
+            rwa [e1, e2] at this
+          have hnew : ∀ (bs : List Nat), bs.length ≤ le32 m (iovs + (pos + 4)) →
+              RdOk m (iovRegions m iovs cnt 0 ++ rest) (Wr.bytes (le32 m (iovs + pos)) bs) := by
+            intro bs hbs
+            constructor
+            · right
+              show le32 m (iovs + pos) + bs.length ≤ m.size
+              omega
+            · intro a ha1 ha2
+              refine ⟨(le32 m (iovs + pos), le32 m (iovs + (pos + 4))), by simp [hentry], ha1, ?_⟩
+              show a < le32 m (iovs + pos) + le32 m (iovs + (pos + 4))
+              have : a < le32 m (iovs + pos) + bs.length := ha2
+              omega
+          have htake : (List.take (min (le32 m (iovs + (pos + 4))) s.src.length) s.src).length ≤ le32 m (iovs + (pos + 4)) := by
+            simp [List.length_take]; omega
+          by_cases hen : en = true
+          · rw [if_pos hen]; exact ⟨hws, hsz⟩
+          · rw [if_neg hen]
+            by_cases hk0 : min (le32 m (iovs + (pos + 4))) s.src.length = 0
+            · simp only [hk0, if_true]
+              by_cases hkl : 0 < le32 m (iovs + (pos + 4))
+              · rw [if_pos hkl]; exact ⟨hws, hsz⟩
+              · rw [if_neg hkl]; exact ih _ _ hn hsz hws
+            · simp only [hk0, if_false]
+              have hws' : ∀ w ∈ Wr.bytes (le32 m (iovs + pos)) (List.take (min (le32 m (iovs + (pos + 4))) s.src.length) s.src) :: s.ws,
+                  RdOk m (iovRegions m iovs cnt 0 ++ rest) w := by
+                intro w hw
+                simp only [List.mem_cons] at hw
+                rcases hw with rfl | hw
+                · exact hnew _ htake
+                · exact hws w hw
+              by_cases hkl : min (le32 m (iovs + (pos + 4))) s.src.length < le32 m (iovs + (pos + 4))
+              · rw [if_pos hkl]; exact ⟨hws', hsz⟩
+              · rw [if_neg hkl]; exact ih _ _ hn hsz hws'
+
+theorem rdok_reverse (m : Mem) (d : List (Nat × Nat)) (r : Res) (ws : List Wr) (h : r.writes = ws.reverse)
+    (hws : ∀ w ∈ ws, RdOk m d w) : Wr1 m d r := by
+  refine wr1_of m d r ws.reverse h ?_ ?_
+  · intro w hw; exact (hws w (List.mem_reverse.1 hw)).1
+  · intro w hw; exact (hws w (List.mem_reverse.1 hw)).2
+
+theorem fdReadCommon_wr1 (rd : Reader) (m : Mem) (hb : Bytes m) (iovs cnt res : Nat) (hi : iovs < 4294967296)
+    (hr : res < 4294967296) (hs : m.size < 9223372036854775808) :
+    Wr1 m (iovRegions m iovs cnt 0 ++ [(res, 4)]) (fdReadCommon true rd m iovs cnt res) := by
+  unfold fdReadCommon
+  dsimp only
+  by_cases hh : (!m.has iovs (w32 (cnt * 8))) = true
+  · rw [if_pos hh]; exact wr1_nil _ _ _ rfl
+  · rw [if_neg hh]
+    have hin : iovs + w32 (cnt * 8) ≤ m.size := has_le m iovs _ hi (stop8 cnt).2 hs (by simpa using hh)
+    have hst : w32 (cnt * 8) ≤ cnt * 8 := by unfold w32; omega
+    cases rd with
+    | unknown =>
+      dsimp only
+      simp only [Bool.not_true, Bool.false_and, Bool.false_eq_true, if_false]
+      refine wr1_of m _ _ (iovWritable m iovs (w32 (cnt * 8)) ++ optRegion m res 4) rfl ?_ ?_
+      · intro w hw
+        rcases List.mem_append.1 hw with hw | hw
+        · exact iovWritable_ok m hb iovs _ hs w hw
+        · exact optRegion_ok m res 4 hr (by decide) hs w hw
+      · intro w hw
+        rcases List.mem_append.1 hw with hw | hw
+        · exact iovWritable_within m iovs cnt _ w hw
+        · exact app_skip _ _ _ (optRegion_within m res 4 [] w hw)
+    | stream src =>
+      have hl := readvLoop_snap_writes false m hb iovs cnt (w32 (cnt * 8)) [(res, 4)] hs (stop8 cnt).1 hst (stop8 cnt).2 hin
+        (w32 (cnt * 8) / 8 + 1) 0 { m := m, ws := [], acc := [(iovs, w32 (cnt * 8))], src := src, nread := 0 } rfl rfl
+        (fun w hw => by cases hw)
+      simp only [↓reduceIte]
+      generalize readvLoop false (some m) iovs (w32 (cnt * 8)) (w32 (cnt * 8) / 8 + 1) 0
+        { m := m, ws := [], acc := [(iovs, w32 (cnt * 8))], src := src, nread := 0 } = x at hl
+      obtain ⟨s, e⟩ := x
+      cases e with
+      | some e => exact rdok_reverse m _ _ s.ws rfl hl.1
+      | none =>
+        dsimp only
+        split
+        · exact rdok_reverse m _ _ s.ws rfl hl.1
+        · rename_i hres
+          refine rdok_reverse m _ _ (Wr.bytes res (bytesLE 4 s.nread) :: s.ws) rfl ?_
+          intro w hw
+          simp only [List.mem_cons] at hw
+          rcases hw with rfl | hw
+          · constructor
+            · have := has_le s.m res 4 hr (by decide) (by have := hl.2; dsimp only at this; omega) (by simpa using hres)
+              right
+              show res + (bytesLE 4 s.nread).length ≤ m.size
+              rw [bytesLE_length]
+              have := hl.2
+              dsimp only at this
+              omega
+            · exact app_skip _ _ _ (wr_in _ res 4 [] rfl (by show (bytesLE 4 _).length ≤ 4; rw [bytesLE_length]; exact Nat.le_refl _))
+          · exact hl.1 w hw
+    | enosys =>
+      have hl := readvLoop_snap_writes true m hb iovs cnt (w32 (cnt * 8)) [(res, 4)] hs (stop8 cnt).1 hst (stop8 cnt).2 hin
+        (w32 (cnt * 8) / 8 + 1) 0 { m := m, ws := [], acc := [(iovs, w32 (cnt * 8))], src := [], nread := 0 } rfl rfl
+        (fun w hw => by cases hw)
+      simp only [↓reduceIte]
+      generalize readvLoop true (some m) iovs (w32 (cnt * 8)) (w32 (cnt * 8) / 8 + 1) 0
+        { m := m, ws := [], acc := [(iovs, w32 (cnt * 8))], src := [], nread := 0 } = x at hl
+      obtain ⟨s, e⟩ := x
+      cases e with
+      | some e => exact rdok_reverse m _ _ s.ws rfl hl.1
+      | none =>
+        dsimp only
+        split
+        · exact rdok_reverse m _ _ s.ws rfl hl.1
+        · rename_i hres
+          refine rdok_reverse m _ _ (Wr.bytes res (bytesLE 4 s.nread) :: s.ws) rfl ?_
+          intro w hw
+          simp only [List.mem_cons] at hw
+          rcases hw with rfl | hw
+          · constructor
+            · have := has_le s.m res 4 hr (by decide) (by have := hl.2; dsimp only at this; omega) (by simpa using hres)
+              right
+              show res + (bytesLE 4 s.nread).length ≤ m.size
+              rw [bytesLE_length]
+              have := hl.2
+              dsimp only at this
+              omega
+            · exact app_skip _ _ _ (wr_in _ res 4 [] rfl (by show (bytesLE 4 _).length ≤ 4; rw [bytesLE_length]; exact Nat.le_refl _))
+          · exact hl.1 w hw
+
+theorem fdRead_wr1 (h : Host) (fds : Fds) (m : Mem) (hb : Bytes m) (fd iovs cnt res : Nat) (hi : iovs < 4294967296)
+    (hr : res < 4294967296) (hs : m.size < 9223372036854775808) :
+    Wr1 m (iovRegions m iovs cnt 0 ++ [(res, 4)]) (fdRead true h fds m fd iovs cnt res) := by
+  unfold fdRead
+  split_all
+  all_goals first
+    | exact fdReadCommon_wr1 _ m hb iovs cnt res hi hr hs
+    | exact wr1_nil _ _ _ rfl
+
+theorem fdPread_wr1 (fds : Fds) (m : Mem) (hb : Bytes m) (fd iovs cnt res : Nat) (hi : iovs < 4294967296)
+    (hr : res < 4294967296) (hs : m.size < 9223372036854775808) :
+    Wr1 m (iovRegions m iovs cnt 0 ++ [(res, 4)]) (fdPread true fds m fd iovs cnt res) := by
+  unfold fdPread
+  split_all
+  all_goals first
+    | exact fdReadCommon_wr1 _ m hb iovs cnt res hi hr hs
+    | exact wr1_nil _ _ _ rfl
+
 end Wz.C15
